@@ -41,11 +41,14 @@ type origMaterial struct {
 // and the first signing batch.
 var reinitRestarts = ""
 
+// c20KeyPrefix distinguishes the violation classes of a dedicated scenario.
+var c20KeyPrefix = ""
+
 // reinitAndCheck performs the reinitialisation procedure with fresh nodes / fresh machines and
 // judges the outcome against the original material.
 func reinitAndCheck(r *kit.Run, om origMaterial, label string, adapt bool, stripSelfConfirms bool) {
 	trace := map[string]interface{}{"scenario": label, "adapted_0_1_4": adapt, "self_confirms_removed": stripSelfConfirms}
-	viol := func(key, what string) { r.Violation("C20/"+key, label+": "+what, trace) }
+	viol := func(key, what string) { r.Violation("C20/"+c20KeyPrefix+key, label+": "+what, trace) }
 	w2, err := world.NewWorldCustom(om.Names, om.Mnemonics, "reinit-key:")
 	if err != nil {
 		r.Infra("world: %v", err)
@@ -74,7 +77,18 @@ func reinitAndCheck(r *kit.Run, om origMaterial, label string, adapt bool, strip
 		}
 		log = l2
 	}
-	re, err := types.GenerateReDKGMessage(log, newKeys)
+	re, err := func() (re *types.ReDKG, err error) {
+		defer func() {
+			if x := recover(); x != nil {
+				err = fmt.Errorf("PANIC in the tool that builds the reinit file: %v", x)
+			}
+		}()
+		return types.GenerateReDKGMessage(log, newKeys)
+	}()
+	if err != nil && strings.HasPrefix(err.Error(), "PANIC") {
+		viol("reinit-tool-panics", err.Error())
+		return
+	}
 	if err != nil {
 		viol("reinit-file-not-generated", err.Error())
 		return
@@ -297,6 +311,19 @@ func c20(tier string, args []string) int {
 		reinitAndCheck(r, lastOM, "recorded ceremony, machines restored with the mnemonic entered twice (set_seed run two times)", false, false)
 		world.MnemonicEntries = 1
 		scen++
+	}
+	// a dump that holds a second opening-proposal line: junk under another round id, refused by every
+	// node of the original ceremony (with an empty participant entry, and a well-formed one)
+	if lastOM.Round != "" {
+		for vi, data := range []string{`{"Participants":[null],"SigningThreshold":1,"CreatedAt":"2026-01-01T00:00:00Z"}`, `{"Participants":[{"Username":"mallory","PubKey":"AAAAAAAAAAAAAAAAAAAAAAAAAAAAAAAAAAAAAAAAAAA=","DkgPubKey":"AAAAAAAAAAAAAAAAAAAAAAAAAAAAAAAAAAAAAAAAAAA="}],"SigningThreshold":1,"CreatedAt":"2026-01-01T00:00:00Z"}`} {
+			omP := lastOM
+			junk := storage.Message{DkgRoundID: strings.Repeat("7", 64), Event: "event_sig_proposal_init", Data: []byte(data), SenderAddr: "mallory"}
+			omP.Log = append(append([]storage.Message{lastOM.Log[0], junk}, lastOM.Log[1:]...))
+			c20KeyPrefix = "second-proposal-line-in-dump/"
+			reinitAndCheck(r, omP, fmt.Sprintf("recorded ceremony with a junk opening proposal of another round id in the dump (variant %d)", vi+1), false, false)
+			c20KeyPrefix = ""
+			scen++
+		}
 	}
 	// the restored machines are stopped and reopened (password expiry / shutdown) before and after
 	// the reinit operation
